@@ -138,31 +138,66 @@ def r_dst(prog, R, files, rid="R-C15-DST", floor=10):
     return r
 
 
+def _sysconfig_fields_written(prog, t, depth):
+    """fields of the accumulator that function t (handed the accumulator) can write, release or pass on by address"""
+    out = set()
+    if t is None or depth > 2:
+        return {"*"}
+    for b, i, el in t.elements():
+        if el["k"] == "asg":
+            l = strip(el["e"]["l"])
+            if l is not None and l.get("k") == "mem" and l["rec"] == "ares_sysconfig_t":
+                out.add(l["f"])
+        elif el["k"] == "call":
+            c = el["e"]
+            for a in c.get("args", []):
+                a2 = strip(a)
+                if a2 is not None and a2.get("k") == "un" and a2["op"] == "&":
+                    for n in walk(a2["e"]):
+                        if n.get("k") == "mem" and n["rec"] == "ares_sysconfig_t":
+                            out.add(n["f"])
+                if a2 is not None and a2.get("k") == "var" and "ares_sysconfig_t" in (a2.get("ty") or ""):
+                    t2 = prog.resolve(t, c)
+                    if t2 is not None and t2.key != t.key:
+                        out |= _sysconfig_fields_written(prog, t2, depth + 1)
+    return out
+
+
 def r_fields(prog, R):
     r = R.rule("R-C15-FIELDS", "each resolv.conf directive writes only its own configuration field; unknown directives write nothing", floor=6, analysis="A-TAB")
     f = prog.func("ares_sysconfig_parse_resolv_line")
     mf = MustFacts(f)
     table = {}
-    # effects: calls that receive sysconfig or a field of it, after the option was identified
-    for b, i, c in f.calls():
+    # effects: the sysconfig fields a directive can change, directly or through helpers that are handed the accumulator
+    for b, i, el in f.elements():
+        touched = set()
+        if el["k"] == "call":
+            c = el["e"]
+            if c.get("callee") in ("ares_streq",):
+                continue
+            for a in c.get("args", []):
+                for n in walk(a):
+                    if n.get("k") == "mem" and n["rec"] == "ares_sysconfig_t":
+                        touched.add(n["f"])
+                if is_var(a, "sysconfig"):
+                    t = prog.resolve(f, c)
+                    touched |= _sysconfig_fields_written(prog, t, 0) if t is not None else {"*"}
+        elif el["k"] == "asg":
+            l = strip(el["e"]["l"])
+            if l is not None and l.get("k") == "mem" and l["rec"] == "ares_sysconfig_t":
+                touched.add(l["f"])
+        if not touched:
+            continue
         lits, uncond = streq_guards(f, b, i)
-        opts = [] if uncond else sorted(lits)
-        touches = set()
-        for a in c.get("args", []):
-            for n in walk(a):
-                if n.get("k") == "mem" and n["rec"] == "ares_sysconfig_t":
-                    touches.add(n["f"])
-            if is_var(a, "sysconfig"):
-                touches.add("*")
-        if touches and c.get("callee") not in ("ares_streq",):
-            key = tuple(sorted(opts)) if opts else ("<none>",)
-            table.setdefault(key, set()).update((c["callee"], t) for t in touches)
-    r.info["directive_table"] = {"|".join(k): sorted("%s:%s" % x for x in v) for k, v in table.items()}
+        key = tuple(sorted(lits)) if (lits and not uncond) else ("<none>",)
+        table.setdefault(key, set()).update(touched)
+    r.info["directive_table"] = {"|".join(k): sorted(v) for k, v in table.items()}
     expect = {
-        "domain": {("config_search", "*")}, "search": {("config_search", "*")},
-        "nameserver": {("ares_sconfig_append_fromstr", "sconfig")},
-        "sortlist": {("ares_parse_sortlist", "sortlist"), ("ares_parse_sortlist", "nsortlist")},
-        "options": {("ares_sysconfig_set_options", "*")},
+        "domain": {"domains", "ndomains"}, "search": {"domains", "ndomains"},
+        "nameserver": {"sconfig"},
+        "sortlist": {"sortlist", "nsortlist"},
+        "options": {"ndots", "tries", "timeout_ms", "rotate", "usevc"},
+        "lookup": {"lookups"}, "hostresorder": {"lookups"},
     }
     for key, eff in sorted(table.items()):
         names = [k for k in key if k != "<none>"]
@@ -170,14 +205,11 @@ def r_fields(prog, R):
             r.viol("directive=<unconditional>", f.name, f.loc(f.ln), "configuration is written before the directive keyword was identified: %s" % sorted(eff))
             continue
         for nme in names:
-            if nme in ("lookup", "hostresorder"):
-                ok = eff == {("config_lookup", "*")}
-            else:
-                ok = nme in expect and eff == expect[nme]
+            ok = nme in expect and eff <= expect[nme] and eff
             if ok:
                 r.ok("directive=%s" % nme, f.loc(f.ln), note=str(sorted(eff)))
             else:
-                r.viol("directive=%s" % nme, f.name, f.loc(f.ln), "directive '%s' touches %s (expected %s)" % (nme, sorted(eff), sorted(expect.get(nme, []))))
+                r.viol("directive=%s" % nme, f.name, f.loc(f.ln), "directive '%s' can change sysconfig fields %s (its own are %s)" % (nme, sorted(eff), sorted(expect.get(nme, []))))
     r.require(len(table) >= 5, "resolv.conf directive table has only %d rows" % len(table))
     # process_option: key -> field written
     po = prog.func("process_option")
@@ -317,6 +349,92 @@ def r_accum(prog, R):
     r.info["overwrite_sites"] = n
 
 
+ALLOC_ONLY = ("ares_strdup", "ares_malloc", "ares_malloc_zero", "ares_strsplit_duplicate")
+RELEASERS = ("ares_free", "ares_strsplit_free", "ares_llist_destroy", "ares_array_destroy", "ares_buf_destroy")
+
+
+def _clobbers_param(prog, t, k, depth=0):
+    """callee t discards what *param_k pointed to (stores NULL or frees it) somewhere in its body"""
+    if k >= len(t.params) or depth > 1:
+        return None
+    pn = t.params[k]["n"]
+    for b, i, el in t.elements():
+        if el["k"] == "asg" and el["e"]["op"] == "=":
+            l = strip(el["e"]["l"])
+            if l is not None and l.get("k") == "un" and l["op"] == "*" and is_var(strip(l["e"]), pn) and is_null(el["e"]["r"]):
+                return el
+        if el["k"] == "call" and el["e"].get("callee") in RELEASERS:
+            a = strip(call_arg(el["e"], 0))
+            if a is not None and a.get("k") == "un" and a["op"] == "*" and is_var(strip(a["e"]), pn):
+                return el
+    return None
+
+
+def r_keep(prog, R):
+    r = R.rule("R-C15-KEEP", "a malformed directive cannot discard configuration accumulated from earlier lines: the old value is released only once its replacement has parsed", floor=4,
+               analysis="replace-after-parse (must-order) + callee clobber summaries")
+    n = 0
+    for f in sorted(prog.funcs.values(), key=lambda x: x.key):
+        if f.file not in ("src/lib/ares_sysconfig_files.c", "src/lib/ares_sysconfig.c"):
+            continue
+        if f.name in ("ares_sysconfig_free",):
+            continue
+        # (1) accumulated fields handed by address to a parser that clobbers its in/out argument
+        for b, i, c in f.calls():
+            t = prog.resolve(f, c)
+            if t is None:
+                continue
+            for k, a in enumerate(c.get("args", [])):
+                a2 = strip(a)
+                if a2 is not None and a2.get("k") == "un" and a2["op"] == "&" and strip(a2["e"]).get("k") == "mem" and strip(a2["e"])["rec"] == "ares_sysconfig_t" \
+                        and (strip(a2["e"]).get("ty") or "").endswith("*"):
+                    n += 1
+                    key = "fn=%s passes &%s to %s" % (f.name, render(strip(a2["e"])), t.name)
+                    cl = _clobbers_param(prog, t, k)
+                    if cl is None:
+                        r.ok(key, f.loc(c["ln"]))
+                    else:
+                        r.viol(key, f.name, f.loc(c["ln"]), "%s parses straight into the accumulated %s; %s discards the previous value before it knows whether the new text is valid (%s): a malformed later line erases an earlier valid one" % (
+                            f.name, render(strip(a2["e"])), t.name, t.loc(cl)))
+        # (2) a release of an accumulated field is followed, without an intervening fallible call, by the store of an already computed replacement
+        root_is_param = lambda m: root_var(m) is not None and root_var(m).get("vk") == "param"
+        for b, i, el in f.elements():
+            if el["k"] != "call" or el["e"].get("callee") not in RELEASERS:
+                continue
+            a = strip(call_arg(el["e"], 0))
+            if a is None or a.get("k") != "mem" or a["rec"] != "ares_sysconfig_t" or not root_is_param(a):
+                continue
+            n += 1
+            fld = render(a)
+            key = "fn=%s release of %s" % (f.name, fld)
+            blk = b
+            okr = False
+            why = "no replacement is stored after the release"
+            for j in range(i + 1, len(blk.els)):
+                e2 = blk.els[j]
+                if e2["k"] == "call" and e2["e"].get("callee") in ALLOC_ONLY:
+                    continue
+                if e2["k"] == "call":
+                    why = "%s is called between the release and the replacement (its failure leaves the field empty)" % (e2["e"].get("callee") or "a function")
+                    break
+                if e2["k"] == "asg" and render(strip(e2["e"]["l"])) == fld:
+                    rr = strip(e2["e"].get("r"))
+                    if is_null(e2["e"].get("r")):
+                        continue
+                    if rr is not None and rr.get("k") == "var":
+                        okr = True
+                    elif rr is not None and rr.get("k") == "call" and ((f.call_by_id(rr["id"]) or (0, 0, rr))[2].get("callee") in ALLOC_ONLY):
+                        okr = True      # can only fail for lack of memory, which fails the whole configuration anyway
+                    else:
+                        why = "the replacement is computed after the release ('%s')" % e2.get("t", "")
+                    break
+            if okr:
+                r.ok(key, f.loc(el))
+            else:
+                r.viol(key, f.name, f.loc(el), "%s releases the accumulated %s before its replacement exists: %s, so a malformed directive discards what earlier lines configured" % (f.name, fld, why))
+    r.info["sites"] = n
+
+
 def run(prog, R, tier):
     R.assume("callees are given valid (non-NULL) pointers by the configuration parsers (defensive NULL-argument returns are not part of the return sets)")
     ownrules.own_rule(prog, R, "R-C15-OWN", FILES, floor=30)
@@ -324,3 +442,4 @@ def run(prog, R, tier):
     r_dst(prog, R, None)
     r_fields(prog, R)
     r_accum(prog, R)
+    r_keep(prog, R)
